@@ -272,6 +272,11 @@ func (d *Diamond) mergeSplits(filePackedC chan<- filePacked, errorC chan<- error
 
 				existing := obj.(mergeEntry)
 				if file.Hash == existing.Hash {
+					if file.Timestamp.After(existing.Timestamp) {
+						// identical content uploaded later: keep track of the latest upload time,
+						// so that arbitration against other versions does not depend on the order of arrival
+						mergeIndex, _, _ = mergeIndex.Insert(key, mergeEntry{BundleEntry: file, ID: splitID})
+					}
 					continue
 				}
 
